@@ -179,6 +179,9 @@ let split_commas s = String.split_on_char ',' s
 let rec range lo hi = if lo > hi then [] else lo :: range (lo + 1) hi
 
 let probe st (a : string list) : string list =
+  (* kvrun's probe asks NextOffset before every kind of probe: on a read-only handle that loads (and may lazily
+     rebuild) the index of the newest segment, a change of state the other kinds would otherwise miss *)
+  (match a with ["scan"] | ["consk"; _; _] -> () | _ -> ignore (next_of st));
   match a with
   | ["scan"] ->
     (match next_of st with
@@ -976,6 +979,10 @@ let run_check (path : string) =
       c.a <- { live = List.map parse_full_msg ms; anext = z_of_string next };
       c.tainted <- false;
       c.mono_hist <- mono_times c.a.live; c.neg_time <- List.exists (fun m -> Z.ltb m.mtime Z0) c.a.live;
+      (* a later Publish with an earlier time than what the log already holds makes the times go back *)
+      c.last_pub_time <- List.fold_left (fun acc m -> match acc with
+          | Some t when Z.leb m.mtime t -> acc
+          | _ -> Some m.mtime) None c.a.live;
       mutated c
     | ["rmindex"; _] | ["gc"] | ["sleepms"; _] | ["bkclean"; _] -> ()
     | ["migrate"; v] ->
